@@ -8,7 +8,7 @@ import time
 
 import numpy as np
 
-from ..common import NCPU, Machinery, Violation, conclude, seed
+from ..common import NCPU, Machinery, Violation, conclude, seed, run_forked, Hang
 from ..tlc import run_tlc, require_clean
 from ..trace import validate
 from .. import enc, substrate
@@ -131,11 +131,14 @@ def run(tier):
         for order, procs, mc, src in plans:
             raised, results = False, []
             try:
-                res = call_run(h, D, order, procs, mc)
-                results = [digest(x) for x in res]
-            except Exception as e:
+                results = run_forked(lambda: [digest(x) for x in call_run(h, D, order, procs, mc)], 180)
+            except Hang as e:
                 raised = True
-                results = [repr(e)[:100]]
+                results = ['DID NOT TERMINATE: %s' % e]
+            except Machinery as e:
+                # an exception raised by the code under test inside the child
+                raised = True
+                results = [str(e)[:200]]
             n_runs += 1
             n_mp += 1 if len(order) > mc else 0
             add({'e': 'run', 'g': d, 'batch': [i + 1 for i in order], 'procs': procs, 'maxchunk': mc, 'raised': raised, 'results': results},
